@@ -783,8 +783,8 @@ impl<Upstream> ValidationContext<Upstream> {
         let (mut node, mut names) =
             self.find_closest_node(name, ta, ta_owner).await?;
 
-        // Assume that node is not an intermediate node. We have to make sure
-        // in find_closest_node.
+        // The node is not an intermediate node, find_closest_node makes sure
+        // of that.
         let mut signer_node = node.clone();
 
         // Walk from the closest node to name.
@@ -862,9 +862,14 @@ impl<Upstream> ValidationContext<Upstream> {
                 return Ok((node, names));
             }
 
-            // Try to find the node in the cache.
+            // Try to find the node in the cache. An intermediate node has
+            // no keys and cannot be the starting point of the walk back to
+            // name: the caller uses the node returned here as the signer of
+            // the next DS lookup. Skip it and continue with its parent.
             if let Some(node) = self.cache_lookup(&curr).await {
-                return Ok((node, names));
+                if !node.intermediate() {
+                    return Ok((node, names));
+                }
             }
 
             names.push_front(curr.clone());
